@@ -53,6 +53,7 @@ Inductive sact :=
 | SRelease (t : Z)      (* release user thread t parked at a yield point *)
 | SFailRead             (* the client's transport fails (after the envelopes it has already queued) *)
 | SBlockWrites (b : bool)  (* the client's transport stops / resumes accepting writes (back-pressure) *)
+| STick (ms : Z)        (* the virtual clock advances by ms milliseconds while everything is at rest *)
 | SFree.                (* free-running: no gating, the whole history in one step *)
 
 Definition events (steps : list (sact * list hev)) : list hev := flat_map snd steps.
